@@ -292,10 +292,9 @@ def _is_threads(pl):
     return any(x.get("k") == "field" and x.get("n") == "threads" and (x.get("adt") or "").endswith("ptrace_dumper::PtraceDumper") for x in pl["proj"])
 
 
-def rule_thread_list_mutators(ctx):
+def rule_thread_list_mutators(ctx, R="C04/thread-list-mutators"):
     """ownership: the list is built once by enumerate_threads and only ever shrunk by the attach filter; any other writer
     (remove/swap/insert/element store) can lose or duplicate an attached thread without the record loop noticing"""
-    R = "C04/thread-list-mutators"
     found = {}
     for b in ctx.prog.bodies:
         for bi, blk in enumerate(b.blocks):
